@@ -105,3 +105,25 @@ func UninstallGlobal() {
 	global = nil
 	setTestingReader(nil)
 }
+
+// Faulty wraps a random source such as the assignable crypto/rand.Reader variable: the FailAt-th
+// Read (1-based) returns ErrInjected. Used from one task at a time.
+type Faulty struct {
+	Under  io.Reader
+	FailAt int64
+	Reads  int64
+	Failed bool
+}
+
+func (f *Faulty) Read(p []byte) (int, error) {
+	if len(p) == 1 && calledFromMaybeReadByte() {
+		p[0] = 0
+		return 1, nil
+	}
+	f.Reads++
+	if f.FailAt != 0 && f.Reads == f.FailAt {
+		f.Failed = true
+		return 0, ErrInjected
+	}
+	return f.Under.Read(p)
+}
